@@ -213,8 +213,10 @@ func (self AnalyzedRangeLiteralExpression) String() string {
 	}
 	return fmt.Sprintf("%s..%s%s", self.Start, endIsInclusiveStr, self.End)
 }
-func (self AnalyzedRangeLiteralExpression) Type() Type     { return NewRangeType(self.Range) }
-func (self AnalyzedRangeLiteralExpression) Constant() bool { return true }
+func (self AnalyzedRangeLiteralExpression) Type() Type { return NewRangeType(self.Range) }
+func (self AnalyzedRangeLiteralExpression) Constant() bool {
+	return self.Start.Constant() && self.End.Constant()
+}
 
 //
 // List literal
@@ -501,8 +503,10 @@ func (self AnalyzedIndexExpression) Span() errors.Span    { return self.Range }
 func (self AnalyzedIndexExpression) String() string {
 	return fmt.Sprintf("%s[%s]", self.Base, self.Index)
 }
-func (self AnalyzedIndexExpression) Type() Type     { return self.ResultType }
-func (self AnalyzedIndexExpression) Constant() bool { return self.Base.Constant() }
+func (self AnalyzedIndexExpression) Type() Type { return self.ResultType }
+func (self AnalyzedIndexExpression) Constant() bool {
+	return self.Base.Constant() && self.Index.Constant()
+}
 
 //
 // Member expression
